@@ -48,7 +48,9 @@ def compare(a, b, rel=1e-9, abs_=1e-12, path_map=None):
     if not num_equal(a["tail"], b["tail"], rel, abs_):
         return "diff:tail"
     if not num_equal(a["tailE"], b["tailE"], rel, abs_):
-        return "diff:tailE"
+        # the final entries are equally probable (tail agrees) but descend from different emitting
+        # entries: a choice among exactly equally probable alternatives
+        return "tie"
     pb = b["path"]
     sb = b["states"]
     if path_map is not None:
@@ -74,3 +76,52 @@ def max_live_size(matcher):
         for layer in col.o:
             mx = max(mx, sum(1 for e in layer.values() if not e.stop))
     return mx
+
+
+def near_tie_at_pruning_boundary(matcher, rel=1e-9):
+    """Is there a column/layer in which an expanded and a postponed live entry have log-probabilities
+    that differ, but by less than rounding-level noise (|d| <= rel*(1+|lp|))?  Width pruning extends
+    over EXACT ties only, so such a pair is a decision made on the last bits of a float."""
+    E = matcher.expand_now
+    if matcher.max_lattice_width is None:
+        return False
+    for col in (matcher.lattice or {}).values():
+        for layer in col.o:
+            live = sorted((e for e in layer.values() if not e.stop), key=lambda e: -e.logprob)
+            for a, b in zip(live, live[1:]):
+                d = abs(a.logprob - b.logprob)
+                if 0 < d <= rel * (1 + abs(a.logprob)) and ((a.delayed <= E) != (b.delayed <= E)):
+                    return True
+    return False
+
+
+def has_exact_tie(matcher):
+    """Two live entries of one column/layer with exactly the same log-probability."""
+    for col in (matcher.lattice or {}).values():
+        for layer in col.o:
+            seen = set()
+            for e in layer.values():
+                if e.stop:
+                    continue
+                v = float(e.logprob)
+                if v in seen:
+                    return True
+                seen.add(v)
+    return False
+
+
+def history_dependent(cfg):
+    """Is the transition model more than first order?  avoid_goingback looks at the state before the
+    predecessor; the distance family accumulates d_o/d_s over a run of non-emitting states."""
+    if cfg.get("avoid_goingback", True):
+        return True
+    return cfg.get("family") == "distance" and cfg.get("non_emitting_states", True)
+
+
+def tie_upstream(cfg, *sessions):
+    """A numeric difference between twins is inconclusive (not a violation) only when the model is
+    history dependent AND an exact tie exists somewhere in one of the lattices: a tie broken in another
+    order legitimately changes later penalties / accumulated distances."""
+    if not history_dependent(cfg):
+        return False
+    return any(s.matcher is not None and has_exact_tie(s.matcher) for s in sessions)
